@@ -68,8 +68,14 @@ def render_group(drop, upper, g):
 
 
 def render_ip6(c, gs):
-    drops, uppers = c
-    return b":".join(render_group(drops[i] if i < len(drops) else 0, uppers[i] if i < len(uppers) else False, g) for i, g in enumerate(gs))
+    drops, uppers, zip_ = c
+
+    def part(lo, hi):
+        return b":".join(render_group(drops[i] if i < len(drops) else 0, uppers[i] if i < len(uppers) else False, gs[i]) for i in range(lo, hi))
+    if zip_ is None:
+        return part(0, len(gs))
+    i, n = zip_
+    return part(0, i) + b"::" + part(i + n, len(gs))
 
 
 def apply_case(lows, s):
@@ -337,6 +343,10 @@ def ser_lines(lines):
             nat(1); ich(fc[1])
         elif k == "ip6":
             nat(2); lst(fc[1][0], nat); lst(fc[1][1], bl)
+            if fc[1][2] is None:
+                nat(0)
+            else:
+                nat(1); nat(fc[1][2][0]); nat(fc[1][2][1])
         elif k == "str":
             nat(3); sch(fc[1])
         elif k == "proto":
@@ -617,7 +627,7 @@ def gen_rdata_values(rng, hard, origin):
     if kind == "TXT":
         return 16, None, [("str", gen_string(rng)) for _ in range(rng.choice([1, 1, 2, 3, rng.randint(1, 6)]))]
     if kind == "AAAA":
-        return 28, 1, [("ip6", [rng.choice([0, 0, 1, 255, 4096, rng.randrange(65536)]) for _ in range(8)])]
+        return 28, 1, [("ip6", [rng.choice([0, 0, 0, 1, 255, 4096, rng.randrange(65536)]) for _ in range(8)])]
     if kind == "SRV":
         return 33, 1, [("u16", gen_u(rng, 16)), ("u16", gen_u(rng, 16)), ("u16", gen_u(rng, 16)), nm()]
     if kind == "HINFO":
@@ -660,7 +670,9 @@ def gen_field_choice(rng, f, origin, first):
                 else:
                     break
             drops.append(rng.choice([lead, lead, rng.randint(0, lead)]))
-        return ("ip6", (drops, [rng.random() < 0.3 for _ in f[1]]))
+        runs = [(i, j - i) for i in range(8) for j in range(i + 1, 9) if all(g == 0 for g in f[1][i:j])]
+        zip_ = rng.choice(runs) if runs and rng.random() < 0.7 else None
+        return ("ip6", (drops, [rng.random() < 0.3 for _ in f[1]], zip_))
     return ("str", gen_string_choice(rng, f[1], first))
 
 
